@@ -11,12 +11,25 @@ P1(n) == [i \in 1..n |-> (3 * i) % 5]
 N1(n) == [i \in 1..n |-> i % 3]
 P2(n) == [i \in 1..n |-> ((2 * i) % 7) - 3]
 A2s == {-4, -1, 0, 1, 6}
+\* low-rank cases: signed coordinate columns at spread positions (all ranks 0..n for small n, ranks up to 5 beyond),
+\* Hadamard columns on a block of four coordinates
+Vals == <<2, 3, 5, 7, 4>>
+PermCols(n, r) == [j \in 1..r |-> <<((3 * j) % n) + 1, IF j % 2 = 0 THEN 1 ELSE -1>>]
+PermOK(n, r) == r <= n /\ \A j1, j2 \in 1..r : j1 # j2 => PermCols(n, r)[j1][1] # PermCols(n, r)[j2][1]
+HadRows == {<<>>, <<2>>, <<1, 4>>, <<3, 1, 2>>, <<1, 2, 3, 4>>}
+Stds(n) == [i \in 1..n |-> IF i % 3 = 0 THEN 4 ELSE IF i % 3 = 1 THEN 1 ELSE 2]
+SignPairs == {<<1, 0>>, <<1, 1>>, <<1, -1>>, <<-1, 1>>}
 MCInit == \/ c \in [kind : {"exact"}, n : 0..MaxLen]
+          \/ c \in [kind : {"flow"}, n : 0..MaxLen]
+          \/ c \in {[kind |-> "lowrank", n |-> n, r |-> r] : n \in 1..MaxLen, r \in 0..5}
+          \/ c \in {[kind |-> "had", n |-> n, b |-> b, js |-> js] : n \in SpecialLens, b \in 1..130, js \in HadRows}
+          \/ c \in {[kind |-> "flowspecial", n |-> n, k |-> k, sp |-> sp] :
+                        n \in SpecialLens, k \in 1..130, sp \in {"nan", "pinf", "ninf"}}
           \/ c \in {[kind |-> "special", n |-> n, k |-> k, sp |-> sp] :
                         n \in SpecialLens, k \in 1..130, sp \in {"nan", "pinf", "ninf"}}
 MCNext == UNCHANGED c
 MCSpec == MCInit /\ [][MCNext]_c
-Valid == c.kind = "special" => c.k <= c.n
+Valid == c.kind \in {"special", "flowspecial"} => c.k <= c.n
 Emit ==
     IF c.kind = "exact"
     THEN LET n == c.n IN
@@ -24,7 +37,28 @@ Emit ==
                   axpy2 |-> [a2 \in A2s |-> Axpy2(X(n), Y(n), a2)], mult |-> Mult(X(n), Y(n)), dot |-> Dot(X(n), Y(n)),
                   prods2 |-> Prods2(P1(n), P2(n), X(n), Y(n)), prods3 |-> Prods3(P1(n), N1(n), P2(n), X(n), Y(n)),
                   sqnorm |-> SqNormSum(X(n), Y(n))])>>)
+    ELSE IF c.kind = "flow"
+    THEN LET n == c.n IN
+         PrintT(<<"REPLAY", ToJson([kind |-> "flow", n |-> n, pos |-> X(n), vel |-> Y(n), grad |-> P2(n),
+                  gradflow2 |-> [e2 \in A2s |-> GradFlow2(X(n), P2(n), Y(n), e2)],
+                  \* the rotation for integer stand-ins of (cos, sin): identity, quarter turn, and a generic pair
+                  rot |-> [cs \in {<<1, 0>>, <<0, 1>>, <<3, -2>>} |-> <<FlowPos(X(n), Y(n), cs[1], cs[2]), FlowVel(X(n), Y(n), cs[1], cs[2])>>]])>>)
+    ELSE IF c.kind = "lowrank"
+    THEN IF ~PermOK(c.n, c.r) THEN TRUE
+         ELSE LET n == c.n  cols == PermCols(n, c.r)  vals == SubSeq(Vals, 1, c.r) IN
+         PrintT(<<"REPLAY", ToJson([kind |-> "lowrank", n |-> n, cols |-> cols, vals |-> vals, rhs |-> Y(n),
+                  out |-> LowRankPerm(cols, vals, Y(n))])>>)
+    ELSE IF c.kind = "had"
+    THEN IF c.b + 3 > c.n THEN TRUE
+         ELSE LET n == c.n  vals == SubSeq(Vals, 1, Len(c.js)) IN
+         PrintT(<<"REPLAY", ToJson([kind |-> "had", n |-> n, b |-> c.b, js |-> c.js, vals |-> vals, rhs |-> Y(n), stds |-> Stds(n),
+                  out4 |-> LowRankHad4(c.js, vals, c.b, Y(n)), eigs4 |-> MultEigsHad4(Stds(n), c.js, vals, c.b, Y(n))])>>)
     ELSE IF c.k > c.n THEN TRUE
+    ELSE IF c.kind = "flowspecial"
+    THEN LET n == c.n IN
+         PrintT(<<"REPLAY", ToJson([kind |-> "flowspecial", n |-> n, k |-> c.k, sp |-> c.sp, pos |-> X(n), vel |-> Y(n), grad |-> P2(n),
+                  rot |-> [sg \in SignPairs |-> <<FlowPosClass(c.sp, sg[1]), FlowVelClass(c.sp, sg[2])>>],
+                  gradflow |-> [e2 \in A2s |-> GradFlowClass(c.sp, e2)]])>>)
     ELSE LET n == c.n IN
          PrintT(<<"REPLAY", ToJson([kind |-> "special", n |-> n, k |-> c.k, sp |-> c.sp, x |-> X(n), y |-> Y(n),
                   dot |-> DotClass(c.sp, Y(n)[c.k]), axpy |-> [a2 \in A2s |-> AxpyClass(c.sp, a2)],
